@@ -2202,16 +2202,21 @@ class _GroupElem(ABC):
         if coordinatesInImage:
             # here coordinates_n are pixels
 
+            # pixels from floor(min) to floor(max) included: a pixel lying exactly on
+            # the upper bound belongs to the element (on the boundary of the mesh no
+            # neighbouring element would take it)
             xe = np.arange(
                 np.floor(coordElem[:, 0].min()),
-                np.ceil(coordElem[:, 0].max()),
+                np.floor(coordElem[:, 0].max()) + 1,
                 dtype=int,
             )
             ye = np.arange(
                 np.floor(coordElem[:, 1].min()),
-                np.ceil(coordElem[:, 1].max()),
+                np.floor(coordElem[:, 1].max()) + 1,
                 dtype=int,
             )
+            xe = xe[(xe >= 0) & (xe < nX)]
+            ye = ye[(ye >= 0) & (ye < nY)]
             Xe, Ye = np.meshgrid(xe, ye)
 
             grid_elements_coordinates = np.concatenate(([Ye.ravel()], [Xe.ravel()]))
